@@ -329,6 +329,17 @@ def build_fn(part, sf, unit, opts, canary=None):
         counts['D6'] = 1
     segs = []
     base_meta = {'fn': fnname}
+    # a loop without a `decreases` clause stops Verus before anything is verified ("loop must have a decreases clause"):
+    # allow it, so that a newly written loop is judged by the function's contract, not by a front-end error.
+    # Termination of such a loop is then NOT proved (recorded in the function's info).
+    bm = mask(body2)
+    loops = find_loops(bm, 1, len(bm))
+    n_dec = sum(1 for lp in part['loops'].values() if any('decreases' in l for l in lp['text']))
+    n_nonfor = sum(1 for (_s, _ob, kw) in loops if kw != 'for')
+    term_unproved = False
+    if n_nonfor > n_dec and not kv.get('assumed') and not any('exec_allows_no_decreases_clause' in a for a in part['attrs']):
+        segs.append(Seg('#[verifier::exec_allows_no_decreases_clause]\n', None, dict(base_meta, section='attr')))
+        term_unproved = True
     for a in part['attrs']:
         segs.append(Seg(a + '\n', None, dict(base_meta, section='attr')))
     if kv.get('assumed'):
@@ -343,6 +354,14 @@ def build_fn(part, sf, unit, opts, canary=None):
     loops = find_loops(bm, 1, len(bm))
     if kv.get('assumed'):
         part = dict(part, loops={}, ats=[])   # nothing is inserted into a stub body
+    anchors_lost = None
+    try:
+        _check_anchors(part, loops, bm)
+    except LostAnchor as e:
+        # the body no longer has the shape the proof hints were written for: keep the CONTRACT, drop the hints.
+        # A failure of this function is then only reported with a replayed concrete witness (check: tentative)
+        anchors_lost = str(e)
+        part = dict(part, loops={}, ats=[])
     for n, lp in part['loops'].items():
         if n < 1 or n > len(loops):
             raise LostAnchor('fn %s: loop %d not found (%d loops)' % (part['qual'], n, len(loops)))
@@ -437,9 +456,36 @@ def build_fn(part, sf, unit, opts, canary=None):
             'assumed': bool(kv.get('assumed')), 'props': kv.get('props', '').split(',') if kv.get('props') else None,
             'has_requires': any('requires' == (m.get('section')) for _, m in label_lines(part['contract'], fnname)),
             'clauses': sorted({m['clause'] for _, m in label_lines(part['contract'], fnname) if m.get('clause') and m.get('section') == 'ensures'}),
+            'anchors_lost': anchors_lost, 'termination_unproved': term_unproved,
             'ncanary': ncanary, 'nloops_contracted': len(part['loops']),
             'body_tokens': len(body.split()), 'body_tokens_out': len(body2.split())}
     return segs, info
+
+
+def _check_anchors(part, loops, bm):
+    """raise LostAnchor if any structural position named by the hints does not exist"""
+    for n, lp in part['loops'].items():
+        if n < 1 or n > len(loops):
+            raise LostAnchor('fn %s: loop %d not found (%d loops)' % (part['qual'], n, len(loops)))
+        if lp['kv'].get('iter') and loops[n - 1][2] != 'for':
+            raise LostAnchor('fn %s: loop %d is not a for loop' % (part['qual'], n))
+    for at in part['ats']:
+        w = at['where']
+        if w[0] == 'exec':
+            w = w[1:]
+        if w[0] in ('loop-body', 'after-loop', 'before-loop') and int(w[1]) > len(loops):
+            raise LostAnchor('fn %s: loop %s not found' % (part['qual'], w[1]))
+        if w[0] == 'before-call':
+            name, k = w[1], int(w[2]) if len(w) > 2 else 1
+            occ = [m.start() for m in re.finditer(r'(?<![A-Za-z0-9_])' + re.escape(name) + r'\s*(?:::<[^>]*>)?\s*\(', bm)]
+            if k > len(occ):
+                raise LostAnchor('fn %s: call %s #%d not found' % (part['qual'], name, k))
+        if w[0] == 'before-return':
+            k = int(w[1]) if len(w) > 1 else 1
+            if k > len(re.findall(r'\breturn\b', bm)):
+                raise LostAnchor('fn %s: return #%d not found' % (part['qual'], k))
+        if w[0] == 'before-stmt':
+            nth_stmt(bm, int(w[1]))
 
 
 def stmt_start_depth1(bm, pos):
@@ -609,6 +655,25 @@ def build(unit_path, out_path, defines=(), canary=None):
             s, info = build_fn(part, sources[part['alias']], unit, opts, canary)
             segs += s
             fns.append(info)
+    # D8: constants of a source file that an extracted function mentions are extracted too (a new guard constant
+    # must not turn a check into "undecided")
+    have = set()
+    for sg in segs:
+        for m in re.finditer(r'\bconst\s+([A-Z][A-Z0-9_]*)\s*:', sg.text):
+            have.add(m.group(1))
+    body_text = ''.join(sg.text for sg in segs if sg.meta.get('section') in ('body', 'sig'))
+    extra = []
+    for alias, sf in sources.items():
+        if sf.rel.startswith('verif:'):
+            continue
+        for it in sf.items:
+            if it.kind == 'const' and it.name not in have and re.search(r'\b%s\b' % re.escape(it.name), body_text):
+                t = 'pub ' + re.sub(r'^\s*pub(\([^)]*\))?\s+', '', sf.src[it.sig_start:it.end])
+                t, _c = rules.apply(t, opts, 'item')
+                extra.append(Seg(t + '\n', (sf.rel, it.sig_start), {'section': 'item', 'item': it.name}))
+                have.add(it.name)
+                items.append({'item': it.name + ' (auto, D8)', 'file': sf.rel, 'line': line_of(sf.src, it.sig_start), 'rules': {}})
+    segs += extra
     segs.append(Seg('} // verus!\nfn main() {}\n', None, {}))
     # flatten
     text = ''.join(s.text for s in segs)
